@@ -373,6 +373,135 @@ def rule_attach(chk):
                 fail="the serializer attached to the message is not the one passed to write")
 
 
+
+def action_type_field_lists(ctx):
+    """What ActionType.__init__ declares for each message kind, independent of how the lists are named or built:
+    {kind: {"params": constructor parameters whose (user-declared) fields are included,
+            "fields": {implicit key: constant value | "<type>" | "<field>"}}}  or None when the construction is not recognised."""
+    import copy
+    from .. import exprs as X
+    p = ctx.p
+    at = ctx.func("_validation", "ActionType.__init__")
+    fv = set()
+    fcls = ctx.cls("_validation", "Field")
+    for nm in ("forValue", "for_value"):
+        m = fcls.find_method(nm)
+        if m is not None:
+            fv.add(m)
+    ctor = None
+    for n in iter_own_nodes(at.node):
+        if isinstance(n, ast.Call) and {k.arg for k in n.keywords} >= {"start", "success", "failure"}:
+            ctor = n
+    if ctor is None:
+        return None
+    env = X.single_assignments(at)
+    params = at.pos_params
+    rebinds = {}
+    for n in iter_own_nodes(at.node):
+        if isinstance(n, ast.Assign) and len(n.targets) == 1 and isinstance(n.targets[0], ast.Name) and n.targets[0].id in params:
+            rebinds.setdefault(n.targets[0].id, []).append(n.value)
+
+    def pieces(e, seen):
+        """flatten a list-valued expression into elements / ("param", name)"""
+        if isinstance(e, ast.BinOp) and isinstance(e.op, ast.Add):
+            return pieces(e.left, seen) + pieces(e.right, seen)
+        if isinstance(e, (ast.List, ast.Tuple)):
+            out = []
+            for x in e.elts:
+                if isinstance(x, ast.Starred):
+                    out += pieces(x.value, seen)
+                else:
+                    out.append(x)
+            return out
+        if isinstance(e, ast.Call) and isinstance(e.func, ast.Name) and e.func.id == "list" and len(e.args) == 1:
+            return pieces(e.args[0], seen)
+        if isinstance(e, ast.Name):
+            if e.id in env and e.id not in seen:
+                return pieces(env[e.id], seen | {e.id})
+            if e.id in params:
+                rb = rebinds.get(e.id, [])
+                if len(rb) == 1 and e.id not in seen:
+                    return pieces(rb[0], seen | {e.id})
+                if not rb or e.id in seen:
+                    return [("param", e.id)]
+        return [("unknown", unparse(e))]
+
+    def field_of(f, e, subst, depth=0):
+        """(key, value) declared by a Field-valued expression"""
+        if depth > 4:
+            return None
+        if isinstance(e, ast.Name):
+            if e.id in subst:
+                return field_of(f, subst[e.id], {}, depth + 1)
+            if f is at and e.id in env:
+                return field_of(f, env[e.id], subst, depth + 1)
+            r = p.resolve_name(f.module, f, e.id)
+            if r[0] == "modvar":
+                vals = [x for x in r[1].assigns.get(r[2], []) if isinstance(x, ast.Call)]
+                if len(vals) == 1 and vals[0].args:
+                    ok, k = ctx.try_fold(r[1], vals[0].args[0]) if hasattr(r[1], "short") else (False, None)
+                    if not ok:
+                        try:
+                            k = p.fold_global(r[1], unparse(vals[0].args[0]))
+                            ok = True
+                        except Exception:
+                            ok = False
+                    if ok:
+                        return (k, "<field>")
+            return None
+        if isinstance(e, ast.Call):
+            tg = ctx.targets(f, e)
+            if tg and all(t in fv for t in tg) and len(e.args) >= 2:
+                k = e.args[0]
+                v = e.args[1]
+                if isinstance(k, ast.Name) and k.id in subst:
+                    k = subst[k.id]
+                if isinstance(v, ast.Name) and v.id in subst:
+                    v = subst[v.id]
+                okk, kk = ctx.try_fold(f if not subst else at, k)
+                if not okk:
+                    okk, kk = ctx.try_fold(at, k)
+                if not okk:
+                    return None
+                if isinstance(v, ast.Name) and v.id == params[1] and not rebinds.get(params[1]):
+                    return (kk, "<type>")
+                okv, vv = ctx.try_fold(at, v)
+                return (kk, vv if okv else None)
+            # a local helper returning a Field
+            for g in tg:
+                if g.parent is at or g.module is at.module:
+                    rets = [r for r in iter_own_nodes(g.node) if isinstance(r, ast.Return) and r.value is not None]
+                    if g.is_lambda:
+                        rets = [ast.Return(value=g.node.body)]
+                    if len(rets) == 1:
+                        sub = dict(zip(g.pos_params, e.args))
+                        return field_of(g, rets[0].value, sub, depth + 1)
+        return None
+
+    out = {}
+    for k in ctor.keywords:
+        if k.arg not in ("start", "success", "failure"):
+            continue
+        v = X.inline(at, k.value, env)
+        if not (isinstance(v, ast.Call) and v.args):
+            return None
+        info = {"params": set(), "fields": {}, "unknown": []}
+        for el in pieces(v.args[0], set()):
+            if isinstance(el, tuple):
+                if el[0] == "param":
+                    info["params"].add(el[1])
+                else:
+                    info["unknown"].append(el[1])
+                continue
+            kv = field_of(at, el, {})
+            if kv is None:
+                info["unknown"].append(unparse(el))
+            else:
+                info["fields"][kv[0]] = kv[1]
+        out[k.arg] = info
+    return out
+
+
 def rule_wiring(chk):
     """Field.serialize applies the field's serializer once; ActionType hands its own
     serializers and type to the action; each message kind gets the serializer built
@@ -386,12 +515,10 @@ def rule_wiring(chk):
         and all(any(r.ast.value is c for n, c in calls) for r in common.returns_of(cfg)) and not [x for x in cfg.live for c, m in calls_in_node(x) if (x, c) not in calls and c not in [cc for _, cc in calls]]
     chk.req(okf, "C13.once", "Field.serialize:serializer-applied-once", chk.where(fs), good="return self._serializer(input)", fail="Field.serialize does not apply the field's serializer exactly once to the value and return the result")
     at = ctx.func("_validation", "ActionType.__init__")
-    okm = False
-    for n in iter_own_nodes(at.node):
-        if isinstance(n, ast.Call) and {k.arg for k in n.keywords} >= {"start", "success", "failure"}:
-            kw = {k.arg: k.value for k in n.keywords}
-            okm = all(isinstance(kw[a], ast.Call) and kw[a].args and isinstance(kw[a].args[0], ast.Name) and kw[a].args[0].id == b
-                      for a, b in (("start", "startFields"), ("success", "successFields"), ("failure", "failureFields")))
+    lists = action_type_field_lists(ctx)
+    ap = at.pos_params
+    okm = lists is not None and set(lists) == {"start", "success", "failure"} and lists["start"]["params"] == {ap[2]} and lists["success"]["params"] == {ap[3]} \
+        and lists["failure"]["params"] == set() and not any(v["unknown"] for v in lists.values())
     chk.req(okm, "C13.attach", "ActionType.__init__:each-kind-gets-its-own-field-list", chk.where(at), good="start/success/failure serializers built from startFields/successFields/failureFields",
             fail="the start/success/failure serializers are not built from their own field lists")
     for q, callee in (("ActionType.__call__", "_start_action"), ("ActionType.as_task", "_startTask")):
